@@ -15,6 +15,7 @@ From Coq Require Import List Bool Arith NArith ZArith.
 Import ListNotations.
 From TI Require Import lib.Re lib.ReSound lib.CRe gen.Regexes model.FmtSpec proofs.FmtSpecProofs.
 From TI Require Import model.FmtEnv proofs.FmtEnvProofs.
+From TI Require Import model.FmtDen proofs.FmtDenProofs.
 
 (** a specifier is accepted for a render style iff it is a sentence of the documented
     grammar  [h_align][width][.[v_align][height]][#[threshold|bgcolor]][+style]
@@ -187,3 +188,78 @@ Theorem C19_ttycap_refuted :
     /\ forall m, doc_interp (e_ts (on_tty true)) Block f100 None = Some m -> geom_ok m rs21 g = false.
 Proof. exact ttycap_refuted. Qed.
 Print Assumptions C19_ttycap_refuted.
+
+(** * What an accepted specifier denotes ON THE OUTPUT (round 7)
+
+    model/FmtDen.v: the terminal's default background colour enters as an environment input
+    [termbg = option rgb] (None = undetermined); [doc_eff t bg] is the documented treatment
+    of transparency there ([#] bgcolor: "the terminal emulator's default background color
+    (or black, if undetermined)"), [impl_eff fallback bg a] what _get_render_data does with
+    the alpha value that reached the renderer.  [doc_carried] / [impl_carried]: which
+    frames an iterm2 render carries ("W: WHOLE render method (current frame only, for
+    animated images)"; A: native animation). *)
+
+(** for every accepted specifier and on BOTH kinds of terminal the code's treatment of
+    transparency is the documented one *)
+Theorem C19_den_alpha_agrees : forall ts sty f sf (bg : termbg),
+  (1 <= cols ts)%Z -> (3 <= lines ts)%Z ->
+  fields_wf f = true -> sf_ok sty sf = true ->
+  match interp ts sty f sf with
+  | Accepted r => exists m, doc_interp ts sty f sf = Some m
+                            /\ impl_eff code_fallback bg (r_alpha r) = Some (doc_eff (m_t m) bg)
+  | _ => True
+  end.
+Proof. exact den_alpha_agrees. Qed.
+Print Assumptions C19_den_alpha_agrees.
+
+(** [##] = [#<terminal background>] when it is known, [#000000] when it is undetermined *)
+Theorem C19_den_hash_is_termbg_or_black :
+  (forall c, doc_eff TBgTerminal (Some c) = doc_eff (TBgColor c) (Some c))
+  /\ doc_eff TBgTerminal None = doc_eff (TBgColor 0) None
+  /\ forall bg, impl_eff code_fallback bg (RStr (35%N :: nil)) = Some (EUnder (backdrop bg)).
+Proof. exact hash_is_termbg_or_black. Qed.
+Print Assumptions C19_den_hash_is_termbg_or_black.
+
+(** the excluded variant (no "or black" fall-back) IS the code on every terminal whose
+    background is known (no run there can see it) ... *)
+Theorem C19_den_nofallback_invisible_known_bg : forall c a,
+  impl_eff None (Some c) a = impl_eff code_fallback (Some c) a.
+Proof. exact nofallback_invisible_known_bg. Qed.
+Print Assumptions C19_den_nofallback_invisible_known_bg.
+
+(** ... and on an undetermined one it underlays nothing: a half-transparent pixel is shown
+    un-blended, which the documented "black" excludes *)
+Theorem C19_den_nofallback_refuted :
+  impl_eff None None (RStr (35%N :: nil)) = None
+  /\ impl_under None None (RStr (35%N :: nil)) = Some UNothing
+  /\ doc_eff TBgTerminal None = EUnder 0
+  /\ pixel_ok (EUnder 0) px_half (Some (200, 100, 50)%Z) = false
+  /\ pixel_ok (EUnder 0) px_half (Some (100, 50, 25)%Z) = true.
+Proof. exact nofallback_refuted. Qed.
+Print Assumptions C19_den_nofallback_refuted.
+
+(** an iterm2 render carries the current frame only — except the native animation
+    (method A, animated source, not a frame of an iteration) — for EVERY combination of
+    source facts and read-from-file policy, and every method the specifier / instance gives *)
+Theorem C19_den_frames_agrees : forall m cur s frame,
+  impl_carried code_guard s frame (eff_method m cur)
+  = doc_carried (s_animated s) frame (eff_method m cur).
+Proof. exact den_frames_agrees. Qed.
+Print Assumptions C19_den_frames_agrees.
+
+(** the excluded variant (fast path guarded by "not a frame of an iteration" instead of
+    "not animated") is the code on still images and inside iterations ... *)
+Theorem C19_den_frame_guard_invisible : forall s method,
+  (s_animated s = false -> impl_carried frame_guard s false method = impl_carried code_guard s false method)
+  /\ impl_carried frame_guard s true method = impl_carried code_guard s true method.
+Proof. exact frame_guard_invisible. Qed.
+Print Assumptions C19_den_frame_guard_invisible.
+
+(** ... and W on an animated readable file carries ALL frames, against the documentation *)
+Theorem C19_den_frame_guard_refuted :
+  impl_carried frame_guard anim_file false 2 = AllNative
+  /\ doc_carried (s_animated anim_file) false 2 = Current
+  /\ impl_carried code_guard anim_file false 2 = Current
+  /\ impl_carried code_guard anim_file false 3 = AllNative.
+Proof. exact frame_guard_refuted. Qed.
+Print Assumptions C19_den_frame_guard_refuted.
